@@ -259,53 +259,211 @@ theorem kexactWithAux_zero_unless_ok (center : Int) (cloud : List (Item ℝ)) (t
       · rename_i x hl; rw [hl] at h; exact absurd rfl h
       · rfl
 
-/-- `ref_recon_kexact_gradient_hessian` at one vertex, 3-D: whatever number of layers it takes, the result is
-    either the exact gradient/Hessian of the quadratic field at (an entry carrying the id of) the vertex, or —
-    when no layer up to 8 gave an acceptable system — the zeros the C silently leaves -/
-theorem kexactNode_quadratic (a : ℝ) (g : V3 ℝ) (H : M6 ℝ) (layerOf : Int → List (Item ℝ)) (center : Int)
-    (hl : ∀ k, ∀ x ∈ layerOf k, OnField a g H x) :
+/-- the layer loop of `ref_recon_kexact_gradient_hessian` at one vertex: whatever number of layers it takes,
+    the result is either what a successful attempt produced on a cloud of admissible entries (`P`), or — when no
+    layer up to 8 gave an acceptable system, or the vertex has no cell — the zeros the C silently leaves -/
+theorem layerLoop_cases (P : Item ℝ → Prop) (E : V3 ℝ × M6 ℝ → Item ℝ → Prop)
+    (layerOf : Int → List (Item ℝ)) (center : Int) (twod : Bool)
+    (hl : ∀ k, ∀ x ∈ layerOf k, P x)
+    (hatt : ∀ (cloud : List (Item ℝ)) (c : Item ℝ) (gr : V3 ℝ) (he : M6 ℝ), (∀ x ∈ cloud, P x) →
+      cloud.find? (fun it => it.g == center) = some c →
+      kexactWithAux center cloud twod = (KSt.ok, gr, he) → E (gr, he) c) :
+    ∀ (fuel : ℕ) (cloud : List (Item ℝ)), (∀ x ∈ cloud, P x) →
+      (layerLoop layerOf center twod fuel cloud = (V3.zero, zero6)) ∨
+      ∃ c : Item ℝ, c.g = center ∧ P c ∧ E (layerLoop layerOf center twod fuel cloud) c := by
+  intro fuel
+  induction fuel with
+  | zero => intro cloud _; exact Or.inl rfl
+  | succ f ih =>
+    intro cloud hc
+    have hg := grow_all layerOf hl cloud hc
+    unfold layerLoop
+    dsimp only
+    cases hk : kexactWithAux center (grow layerOf cloud) twod with
+    | mk st gh =>
+      obtain ⟨gr, he⟩ := gh
+      cases st with
+      | ok =>
+        dsimp only
+        cases hf : (grow layerOf cloud).find? (fun it => it.g == center) with
+        | none =>
+          unfold kexactWithAux at hk; rw [hf] at hk; simp at hk
+        | some c =>
+          refine Or.inr ⟨c, ?_, hg c (List.mem_of_find?_eq_some hf), hatt _ c gr he hg hf hk⟩
+          have := List.find?_some hf
+          simpa using this
+      | notFound =>
+        dsimp only
+        have := kexactWithAux_zero_unless_ok center (grow layerOf cloud) twod (by rw [hk]; simp)
+        rw [hk] at this
+        exact Or.inl this
+      | divZero => exact ih _ hg
+      | illConditioned => exact ih _ hg
+      | failure => exact ih _ hg
+      | invalid => exact ih _ hg
+
+/-- one vertex, 3-D: exact gradient/Hessian of the quadratic field at an admissible entry carrying the id of
+    the vertex, or zeros -/
+theorem kexactNode_quadratic (a : ℝ) (g : V3 ℝ) (H : M6 ℝ) (P : Item ℝ → Prop)
+    (layerOf : Int → List (Item ℝ)) (center : Int)
+    (hP : ∀ x, P x → OnField a g H x) (hl : ∀ k, ∀ x ∈ layerOf k, P x) :
     (kexactNode layerOf center false = (V3.zero, zero6)) ∨
-    ∃ c : Item ℝ, c.g = center ∧ OnField a g H c ∧
+    ∃ c : Item ℝ, c.g = center ∧ P c ∧
       kexactNode layerOf center false = (gradAt g H c.x c.y c.z, H) := by
-  have key : ∀ (fuel : ℕ) (cloud : List (Item ℝ)), (∀ x ∈ cloud, OnField a g H x) →
-      (layerLoop layerOf center false fuel cloud = (V3.zero, zero6)) ∨
-      ∃ c : Item ℝ, c.g = center ∧ OnField a g H c ∧
-        layerLoop layerOf center false fuel cloud = (gradAt g H c.x c.y c.z, H) := by
-    intro fuel
-    induction fuel with
-    | zero => intro cloud _; exact Or.inl rfl
-    | succ f ih =>
-      intro cloud hc
-      have hg := grow_all layerOf hl cloud hc
-      unfold layerLoop
-      dsimp only
-      cases hk : kexactWithAux center (grow layerOf cloud) false with
-      | mk st gh =>
-        obtain ⟨gr, he⟩ := gh
-        cases st with
-        | ok =>
-          dsimp only
-          cases hf : (grow layerOf cloud).find? (fun it => it.g == center) with
-          | none =>
-            unfold kexactWithAux at hk; rw [hf] at hk; simp at hk
-          | some c =>
-            obtain ⟨h1, h2⟩ := kexact_quadratic_exact a g H center _ c gr he hg hf hk
-            refine Or.inr ⟨c, ?_, hg c (List.mem_of_find?_eq_some hf), by rw [h1, h2]⟩
-            have := List.find?_some hf
-            simpa using this
-        | notFound =>
-          dsimp only
-          have := kexactWithAux_zero_unless_ok center (grow layerOf cloud) false (by rw [hk]; simp)
-          rw [hk] at this
-          exact Or.inl this
-        | divZero => exact ih _ hg
-        | illConditioned => exact ih _ hg
-        | failure => exact ih _ hg
-        | invalid => exact ih _ hg
   unfold kexactNode
-  rcases key 7 (layerOf center) (hl center) with h | ⟨c, h1, h2, h3⟩
+  rcases layerLoop_cases P (fun r c => r = (gradAt g H c.x c.y c.z, H)) layerOf center false hl
+      (fun cloud c gr he hc hf hk => by
+        obtain ⟨h1, h2⟩ := kexact_quadratic_exact a g H center cloud c gr he (fun it hi => hP it (hc it hi)) hf hk
+        rw [h1, h2])
+      7 (layerOf center) (hl center) with h | ⟨c, h1, h2, h3⟩
   · left; rw [h]; rfl
   · right; exact ⟨c, h1, h2, by rw [h3]; rfl⟩
+
+/-- one vertex, 2-D (phantom rows, z entries overwritten with zero): exact for fields quadratic in x, y on a
+    planar cloud, or zeros -/
+theorem kexactNode_quadratic_twod (a : ℝ) (g : V3 ℝ) (H : M6 ℝ) (z0 : ℝ) (P : Item ℝ → Prop)
+    (layerOf : Int → List (Item ℝ)) (center : Int)
+    (hg : g.z = 0) (h2 : H.m2 = 0) (h4 : H.m4 = 0) (h5 : H.m5 = 0)
+    (hP : ∀ x, P x → OnField a g H x ∧ x.z = z0) (hl : ∀ k, ∀ x ∈ layerOf k, P x) :
+    (kexactNode layerOf center true = (V3.zero, zero6)) ∨
+    ∃ c : Item ℝ, c.g = center ∧ P c ∧
+      kexactNode layerOf center true = (gradAt g H c.x c.y c.z, H) := by
+  unfold kexactNode
+  rcases layerLoop_cases P (fun r c => r.1.x = (gradAt g H c.x c.y c.z).x ∧ r.1.y = (gradAt g H c.x c.y c.z).y ∧
+        r.2.m0 = H.m0 ∧ r.2.m1 = H.m1 ∧ r.2.m3 = H.m3) layerOf center true hl
+      (fun cloud c gr he hc hf hk =>
+        kexact_quadratic_exact_twod a g H center cloud c gr he hg h2 h4 h5 (fun it hi => (hP it (hc it hi)).1) hf
+          (fun it hi => by
+            rw [(hP it (hc it hi)).2, (hP c (hc c (List.mem_of_find?_eq_some hf))).2]) hk)
+      7 (layerOf center) (hl center) with h | ⟨c, h1, hc, e1, e2, e3, e4, e5⟩
+  · left; rw [h]; simp [V3.zero, zero6]
+  · right
+    refine ⟨c, h1, hc, ?_⟩
+    generalize layerLoop layerOf center true 7 (layerOf center) = r at e1 e2 e3 e4 e5 ⊢
+    obtain ⟨⟨rx, ry, rz⟩, ⟨m0, m1, m2, m3, m4, m5⟩⟩ := r
+    obtain ⟨H0, H1, H2, H3, H4, H5⟩ := H
+    simp only [gradAt] at e1 e2 e3 e4 e5 h2 h4 h5
+    subst h2 h4 h5 e1 e2 e3 e4 e5
+    simp [gradAt, hg, lit0_eq]
+
+/-! ### the whole mesh -/
+
+theorem modify_all {Q : List (Item ℝ) → Prop} (f : List (Item ℝ) → List (Item ℝ)) (hf : ∀ L, Q L → Q (f L)) :
+    ∀ (acc : List (List (Item ℝ))) (v : ℕ), (∀ L ∈ acc, Q L) → ∀ L ∈ acc.modify v f, Q L
+  | [], v, _, L, hL => by simp at hL
+  | A :: acc, 0, h, L, hL => by
+    simp only [List.modify_zero_cons, List.mem_cons] at hL
+    rcases hL with rfl | hL
+    · exact hf A (h A (by simp))
+    · exact h L (by simp [hL])
+  | A :: acc, v + 1, h, L, hL => by
+    simp only [List.modify_succ_cons, List.mem_cons] at hL
+    rcases hL with rfl | hL
+    · exact h L (by simp)
+    · exact modify_all f hf acc v (fun L' hL' => h L' (by simp [hL'])) L hL
+
+/-- the cloud entry `ref_recon_local_immediate_cloud` stores for vertex `i` -/
+noncomputable def itemOf (xyz : List (V3 ℝ)) (s : List ℝ) (i : ℕ) : Item ℝ :=
+  ⟨(i : Int), (xyz.getD i V3.zero).x, (xyz.getD i V3.zero).y, (xyz.getD i V3.zero).z, s.getD i 0⟩
+
+theorem oneLayer_items (xyz : List (V3 ℝ)) (s : List ℝ) (cells : List (List ℕ))
+    (hcells : ∀ cell ∈ cells, ∀ v ∈ cell, v < xyz.length) :
+    ∀ L ∈ oneLayer xyz s cells, ∀ it ∈ L, ∃ j, j < xyz.length ∧ it = itemOf xyz s j := by
+  unfold oneLayer
+  dsimp only
+  have hitem : ∀ i : ℕ, (⟨(i : Int), (xyz.getD i V3.zero).x, (xyz.getD i V3.zero).y, (xyz.getD i V3.zero).z,
+      s.getD i lit0⟩ : Item ℝ) = itemOf xyz s i := fun i => by simp [itemOf, lit0_eq]
+  have outer : ∀ (cs : List (List ℕ)) (acc : List (List (Item ℝ))),
+      (∀ cell ∈ cs, ∀ v ∈ cell, v < xyz.length) →
+      (∀ L ∈ acc, ∀ it ∈ L, ∃ j, j < xyz.length ∧ it = itemOf xyz s j) →
+      ∀ L ∈ cs.foldl (fun acc cell => cell.foldl (fun a v => a.modify v (fun c => storeAll c
+          (cell.map (fun (i : ℕ) => (⟨(i : Int), (xyz.getD i V3.zero).x, (xyz.getD i V3.zero).y,
+            (xyz.getD i V3.zero).z, s.getD i lit0⟩ : Item ℝ))))) acc) acc,
+        ∀ it ∈ L, ∃ j, j < xyz.length ∧ it = itemOf xyz s j := by
+    intro cs
+    induction cs with
+    | nil => intro acc _ h; simpa using h
+    | cons cell cs ih =>
+      intro acc hcs hacc
+      simp only [List.foldl_cons]
+      refine ih _ (fun c hc => hcs c (by simp [hc])) ?_
+      have hnew : ∀ it ∈ cell.map (fun (i : ℕ) => (⟨(i : Int), (xyz.getD i V3.zero).x, (xyz.getD i V3.zero).y,
+          (xyz.getD i V3.zero).z, s.getD i lit0⟩ : Item ℝ)), ∃ j, j < xyz.length ∧ it = itemOf xyz s j := by
+        intro it hit
+        obtain ⟨i, hi, rfl⟩ := List.mem_map.mp hit
+        exact ⟨i, hcs cell (by simp) i hi, hitem i⟩
+      have inner : ∀ (vs : List ℕ) (acc : List (List (Item ℝ))),
+          (∀ L ∈ acc, ∀ it ∈ L, ∃ j, j < xyz.length ∧ it = itemOf xyz s j) →
+          ∀ L ∈ vs.foldl (fun a v => a.modify v (fun c => storeAll c
+            (cell.map (fun (i : ℕ) => (⟨(i : Int), (xyz.getD i V3.zero).x, (xyz.getD i V3.zero).y,
+              (xyz.getD i V3.zero).z, s.getD i lit0⟩ : Item ℝ))))) acc,
+            ∀ it ∈ L, ∃ j, j < xyz.length ∧ it = itemOf xyz s j := by
+        intro vs
+        induction vs with
+        | nil => intro acc h; simpa using h
+        | cons v vs ihv =>
+          intro acc h
+          simp only [List.foldl_cons]
+          exact ihv _ (modify_all _ (fun L hL => storeAll_all _ L hL hnew) acc v h)
+      exact inner cell acc hacc
+  exact outer cells _ hcells (by
+    intro L hL
+    rw [List.mem_replicate] at hL
+    rw [hL.2]; simp)
+
+/-- `ref_recon_kexact_gradient_hessian` (hence `ref_recon_gradient`/`ref_recon_signed_hessian` with
+    `REF_RECON_KEXACT`, serial): on a mesh whose nodal values are a quadratic function of the coordinates, every
+    vertex — interior or boundary — receives the exact gradient and Hessian at its own position, or (no
+    acceptable stencil within 8 layers / no cell) zero.  2-D: field quadratic in x, y, planar mesh. -/
+theorem kexactGradHess_quadratic (a : ℝ) (g : V3 ℝ) (H : M6 ℝ) (twod : Bool) (z0 : ℝ)
+    (xyz : List (V3 ℝ)) (s : List ℝ) (cells : List (List ℕ))
+    (hcells : ∀ cell ∈ cells, ∀ v ∈ cell, v < xyz.length)
+    (hfield : ∀ i, i < xyz.length →
+      s.getD i 0 = quad a g H (xyz.getD i V3.zero).x (xyz.getD i V3.zero).y (xyz.getD i V3.zero).z)
+    (h2d : twod = true → g.z = 0 ∧ H.m2 = 0 ∧ H.m4 = 0 ∧ H.m5 = 0 ∧
+      ∀ i, i < xyz.length → (xyz.getD i V3.zero).z = z0)
+    (i : ℕ) (hi : i < xyz.length) :
+    (kexactGradHess twod xyz s cells).getD i (V3.zero, zero6) = (V3.zero, zero6) ∨
+    (kexactGradHess twod xyz s cells).getD i (V3.zero, zero6) =
+      (gradAt g H (xyz.getD i V3.zero).x (xyz.getD i V3.zero).y (xyz.getD i V3.zero).z, H) := by
+  unfold kexactGradHess
+  dsimp only
+  rw [List.getD_eq_getElem?_getD, List.getElem?_map, List.getElem?_range hi]
+  simp only [Option.map_some, Option.getD_some]
+  set layerOf : Int → List (Item ℝ) :=
+    fun k => if k < 0 then [] else (oneLayer xyz s cells).getD k.toNat [] with hlo
+  let P : Item ℝ → Prop := fun it => ∃ j, j < xyz.length ∧ it = itemOf xyz s j
+  have hl : ∀ k, ∀ x ∈ layerOf k, P x := by
+    intro k x hx
+    simp only [hlo] at hx
+    split at hx
+    · simp at hx
+    · rw [List.getD_eq_getElem?_getD] at hx
+      cases hL : (oneLayer xyz s cells)[k.toNat]? with
+      | none => rw [hL] at hx; simp at hx
+      | some L =>
+        rw [hL] at hx
+        exact oneLayer_items xyz s cells hcells L (List.mem_of_getElem? hL) x hx
+  have hPf : ∀ x, P x → OnField a g H x := by
+    rintro x ⟨j, hj, rfl⟩
+    exact hfield j hj
+  have hpos : ∀ c : Item ℝ, c.g = Int.ofNat i → P c → c = itemOf xyz s i := by
+    rintro c hc ⟨j, _, rfl⟩
+    have : j = i := by simpa [itemOf] using hc
+    rw [this]
+  cases twod with
+  | false =>
+    rcases kexactNode_quadratic a g H P layerOf (Int.ofNat i) hPf hl with h | ⟨c, h1, h2, h3⟩
+    · exact Or.inl h
+    · right; rw [h3, hpos c h1 h2]; rfl
+  | true =>
+    obtain ⟨hg, k2, k4, k5, hz⟩ := h2d rfl
+    have hPz : ∀ x, P x → OnField a g H x ∧ x.z = z0 := by
+      rintro x ⟨j, hj, rfl⟩
+      exact ⟨hfield j hj, hz j hj⟩
+    rcases kexactNode_quadratic_twod a g H z0 P layerOf (Int.ofNat i) hg k2 k4 k5 hPz hl with h | ⟨c, h1, h2, h3⟩
+    · exact Or.inl h
+    · right; rw [h3, hpos c h1 h2]; rfl
 
 /-- numbering independence on quadratic fields: two clouds (any ids, any order, any extent) carrying the same
     quadratic field, centres at the same point — if both solves succeed the answers coincide -/
